@@ -42,11 +42,17 @@ def make_fn(v, res):
         a, b, T = v['a'], v['b'], v['T']
         return lambda t: a * (b / a) ** (t / T)
     if kind == 'model':
-        return MODELS[v['id']](*[res(x) for x in v.get('args', [])])
+        # one function object per (model id, args) per interpreter, like a module-level def the user reuses: this is
+        # what makes a cache keyed on (function, params, pts) without ns, or without pts, actually collide
+        key = repr((v['id'], v.get('args', [])))
+        if key not in _MODEL_MEMO:
+            _MODEL_MEMO[key] = MODELS[v['id']](*[res(x) for x in v.get('args', [])])
+        return _MODEL_MEMO[key]
     raise KeyError(kind)
 
 
 MODELS = {}
+_MODEL_MEMO = {}
 
 
 def model(name):
@@ -79,6 +85,7 @@ def _m_linear(k, seed, affine):
         val = B[0] * (1.0 if affine else 0.0)
         for j in range(k):
             val = val + params[j] * B[j + 1]
+        val = val * (1.0 + 0.3 / float(np.sum(pts)))      # depends on the grid setting, as real models do
         return dadi.Spectrum(val)
     f.__name__ = 'linear_k%d_s%d_%s' % (k, seed, 'aff' if affine else 'lin')
     return f
